@@ -9,6 +9,7 @@ import SkaModel.Spec.Dict
 import SkaModel.DriverBase
 import SkaModel.DriverHist
 import SkaModel.DriverMap
+import SkaModel.DriverSkf
 
 namespace SkaModel.Driver
 
@@ -103,6 +104,8 @@ def runCase (c : Case) : String × String :=
     let m2 := buildDict (c.nat "w") (c.nat "k") (c.flag "rc") alt
     let sd := Spec.specDict (c.nat "k") (c.flag "rc") recs
     (s!"{showB m1} eq:{b2s (m1 == m2)}", s!"{if sd.isEmpty then "novalid" else showDict sd} eq:1")
+  | "skfdec" => runSkfdec c
+  | "unframe" => runUnframe c
   | "map" => runMap c
   | "alnw" => runAlnw c
   | "hist" =>
